@@ -1066,6 +1066,58 @@ func scnDiffdb(out *ScnOut, seed int64, dur, limit time.Duration) {
 			models[i][string(key)] = val
 		}
 	}
+	// phase 0: a reader and a writer on two views of the SAME prefix meet on a key that is committed but not yet in the
+	// overlay (the reader goes to the store): once the writer's Set / Del has returned, every later read sees it
+	{
+		const N = 3000
+		pfx := []byte{200}
+		for k := 0; k < N; k++ {
+			store.Set(append(append([]byte{}, rootPrefix...), append(pfx, byte(k>>8), byte(k))...), []byte{1, byte(k)})
+		}
+		shared := diffdb.New(store, rootPrefix)
+		lostSet, lostDel := 0, 0
+		for k := 0; k < N && lostSet+lostDel == 0; k++ {
+			key := []byte{byte(k >> 8), byte(k)}
+			del := k%3 == 0
+			var ready, done sync.WaitGroup
+			var goFlag atomic.Bool
+			ready.Add(2)
+			done.Add(2)
+			go func() {
+				defer done.Done()
+				v := shared.WithPrefix(pfx)
+				ready.Done()
+				for !goFlag.Load() {
+				}
+				v.Get(key)
+			}()
+			go func() {
+				defer done.Done()
+				v := shared.WithPrefix(pfx)
+				ready.Done()
+				for !goFlag.Load() {
+				}
+				if del {
+					v.Del(key)
+				} else {
+					v.Set(key, []byte{2, byte(k)})
+				}
+			}()
+			ready.Wait()
+			goFlag.Store(true)
+			done.Wait()
+			got, ok := shared.WithPrefix(pfx).Get(key)
+			if del && ok {
+				lostDel++
+			}
+			if !del && (!ok || !bytes.Equal(got, []byte{2, byte(k)})) {
+				lostSet++
+			}
+		}
+		if lostSet+lostDel > 0 {
+			out.fail("diffdb:staged-write-lost", fmt.Sprintf("a Set / Del that had returned is not seen by a later Get on a view of the same prefix after a concurrent Get of the same key (lost sets %d, lost deletes %d)", lostSet, lostDel), nil)
+		}
+	}
 	root := diffdb.New(store, rootPrefix)
 	g := &group{out: out}
 	check := func(idx int, view *diffdb.Database, m map[string][]byte, where string) {
